@@ -1,6 +1,7 @@
 package command
 
 import (
+	"github.com/v-byte-cpu/sx/pkg/scan/arp"
 	"context"
 	"net"
 
@@ -22,6 +23,8 @@ var c03Range *scan.Range
 func verifSeam_synParseOptions(o *tcpSYNCmdOpts, scanName string, args []string) error {
 	o.scanRange = c03Range
 	o.vpnMode = false
+	o.cache = arp.NewCache()
+	o.gatewayMAC = net.HardwareAddr{0x10, 0x11, 0x12, 0x13, 0x14, 0x15}
 	return nil
 }
 
@@ -53,6 +56,29 @@ func VerifH_C03_synWiring() {
 	verifAssert(ok, "the SYN command does not use the TCP scan method")
 	if !ok {
 		return
+	}
+	// the probes of this scan carry SYN and nothing else
+	{
+		pr := *c03Range
+		pr.DstSubnet = &net.IPNet{IP: net.IPv4(192, 168, 0, 7).To4(), Mask: net.CIDRMask(32, 32)}
+		pr.Ports = []*scan.PortRange{{StartPort: 8443, EndPort: 8443}}
+		pr.SrcIP, pr.SrcMAC = net.IPv4(192, 168, 0, 3).To4(), net.HardwareAddr{0, 1, 2, 3, 4, 5}
+		pctx, pcancel := context.WithCancel(context.Background())
+		np := 0
+		for p := range sm.Packets(pctx, &pr) {
+			np++
+			verifAssert(p.Err == nil && p.Buf != nil, "probe could not be built")
+			if p.Err == nil && p.Buf != nil {
+				if fb := p.Buf.Bytes(); len(fb) >= 54 {
+					verifAssert(fb[23] == 6 && fb[33] == 7 && int(fb[36])<<8|int(fb[37]) == 8443, "not a TCP probe to the target address and port")
+					verifAssert(fb[47] == 0x02 && fb[46]&1 == 0, "the SYN scan's probe does not carry exactly SYN")
+				} else {
+					verifAssert(false, "probe shorter than its headers")
+				}
+			}
+		}
+		pcancel()
+		verifAssert(np == 1, "a single-address single-port target does not yield exactly one probe")
 	}
 	b := ndBytes("F", n)
 	b = b[:n:n]
